@@ -443,6 +443,14 @@ def check_C01(tier, seed):
             runs["load-deferred/" + t] = run_hx(["load", t, "resolved"], lines)
         hl = ["%s#%s" % ("PNPPN" * 12, l) for l in lines]
         runs["peeknext/str"] = run_hx(["hist", "str"], hl)
+        # mixed call histories over peek (P), next (N), load(multi) (L), load(single) (l) on one parser object: whatever the
+        # order of the calls, a consumer must get values back (events, None, an error), never a panic or a spin
+        hrng = gen.rng_for(seed, "C01-mix")
+        fixed = ["LN", "LP", "lllN", "lNl", "PL", "NNL", "lPNl", "LL", "llllP", "NLNL", "PlN", "NlP"]
+        mixh = [fixed[i % len(fixed)] if i % 3 == 0 else "".join(hrng.choice("PNNLll") for _ in range(hrng.randrange(2, 20)))
+                for i in range(len(lines))]
+        for b in ("str", "iter"):
+            runs["mixed-history/" + b] = run_hx(["mix", b], ["%s#%s" % (h, l) for h, l in zip(mixh, lines)])
         work = run_hx(["work", "cap16"], lines)
         apis = sorted(runs)
         # the extracted model is run on inputs up to 4000 characters (it is slower than the implementation)
@@ -464,8 +472,9 @@ def check_C01(tier, seed):
                     kf.add("%s: %s" % (known[0]["class"], known[0]["what"]))
                     continue
                 if "PANIC" in fin or "TIMEOUT" in fin or "CRASH" in fin or "SPIN" in fin:
-                    res.add_violation("%s panics / aborts / does not terminate" % k, dict(input=s[:4000], codepoints=lines[i][:20000], api=k),
-                                      impl=o[-300:])
+                    res.add_violation("%s panics / aborts / does not terminate" % k,
+                                      dict(input=s[:4000], codepoints=lines[i][:20000], api=k,
+                                           **(dict(history=mixh[i]) if k.startswith("mixed-history") else {})), impl=o[-300:])
             ph = runs["peeknext/str"][i].split(";")
             seen_end = False
             for j, t in enumerate(ph):
@@ -507,7 +516,7 @@ def check_C01(tier, seed):
         for i in (3, len(cases) // 2, len(cases) - 3):
             res.samples.append(dict(input=cases[i][:200], work=work[i]))
     rule = ("C01 input space + long repetitive inputs, x 6 input back-ends (string, iterator, contract-checking inputs of capacity "
-            "8/16/64/128) x {iterator, push multi/single, peek+next, 4 loaders eager and deferred}; per-case panic capture, process "
+            "8/16/64/128) x {iterator, push multi/single, peek+next, mixed peek/next/load histories, 4 loaders eager and deferred}; per-case panic capture, process "
             "crash detection, input-call counting; non-trivial = distinct inputs whose stream has >= 5 events")
     return res.finish(proof, rule)
 
